@@ -50,6 +50,8 @@ Inductive kind :=
 | KErrCalc (X : tensor F) (R : nat) (w : option (list F)) (fs : list (tensor F)) (M : tensor F) (n : nat) (rep : F)
 | KTucker (X G : tensor F) (fs : list (tensor F)) (mask : option (tensor F)) (rep : F)
 | KHooi (X G : tensor F) (rep : F)
+| KSparsify (t : tensor F) (card : nat) (out : tensor F)
+| KTR (X : tensor F) (cores : list (tensor F)) (rep : F)
 | KParafac2 (slices : list (tensor F)) (w : option (list F)) (A B C : tensor F) (Ps : list (tensor F)) (rep : F)
 | KDense (X L : tensor F) (rep : F)
 | KCmtf (X : tensor F) (R : nat) (fs : list (tensor F)) (Y : tensor F) (fsY : list (tensor F)) (w wY : option (list F)) (rep : F)
@@ -82,6 +84,12 @@ Definition agree_kind (k : kind) : bool :=
   | KErrCalc X R w fs M n rep => rel_close (err_shortcut_with Op X R w fs M n) rep
   | KTucker X G fs mask rep => rel_close (err_explicit Op X (tucker_tensor_entry Op G fs) None mask) rep
   | KHooi X G rep => rel_close_abs (err_hooi Op X G) rep
+  | KSparsify t card out =>
+      let m := sparsify Op card t in
+      nat_list_eqb (shape m) (shape out) && q_list_eqb (map toQ (data m)) (map toQ (data out))
+  | KTR X cores rep =>
+      let '(ls, t, nx) := tr_all Op X cores in
+      rel_close (t, nx) rep && Qeq_bool (toQ ls) (toQ t)
   | KParafac2 slices w A B C Ps rep =>
       let '(f1, f2, t, nx) := p2_all Op slices w A B C Ps in
       rel_close (t, nx) rep && Qeq_bool (toQ f1) (toQ t) && Qeq_bool (toQ f2) (toQ t)
